@@ -80,9 +80,14 @@ func RuleW1(keep fnFilter, floor int) Rule {
 				if deepAllowed {
 					used[name+"#"+p.Name()+"*"] = true
 				}
+				_, listed := pol[name]
 				switch {
 				case !s.W[i]:
 					c.OK("W1", key, fn.Pos(), "no write event on any object reachable from this parameter (may-write analysis, all paths)")
+				case !listed && i == 0 && fn.Signature.Recv() != nil && !isConfigType(p.Type()):
+					// a function that did not exist when the policy table was frozen: a method may set its own
+					// (non-configuration) receiver; its other parameters remain read-only
+					c.OK("W1", key, fn.Pos(), "function not in the frozen policy table: writing its own non-configuration receiver is accepted", st.describe(s.Causes["param:"+p.Name()]))
 				case allowed:
 					c.OK("W1", key, fn.Pos(), "written; allowed by policy: "+reason, st.describe(s.Causes["param:"+p.Name()]))
 				case deepAllowed && !s.WS[i]:
@@ -380,4 +385,13 @@ func RuleW4(c *Ctx) {
 	} else {
 		c.OK("W4", "control:BatchNormalize#elements", bn.Pos(), "analysis sees the deep write through map keys, append and closure", st.describe(bs.Causes["param:elements"]))
 	}
+}
+
+func isConfigType(t types.Type) bool {
+	for _, ct := range configTypes {
+		if namedIs(t, ct[0], ct[1]) {
+			return true
+		}
+	}
+	return false
 }
